@@ -52,13 +52,15 @@ const (
 	uMapNilTyped   // element of a fresh []map[string]interface{}: a nil map
 	uSliceNilTyped // element of a fresh [][]int64: a nil slice
 	uStructVal     // what make(T) yields for a struct type: an addressable struct value
+	uNamedInt64    // a value of a defined integer type with a method (time.Duration is one)
+	uNamedString   // a value of a defined string type
 	uNumClasses
 )
 
 var uNames = []string{"nil", "bool", "int64", "float64", "string-empty", "string-abc", "string-numeral", "slice-empty", "slice2",
 	"[]int64", "[]*int64-nil-elem", "[][]interface{}", "map-empty", "map1", "map[string]int64", "*interface{}", "*int64", "nil-*int64",
 	"chan-open", "chan-closed", "func0", "func1", "func-variadic", "func5", "go-identity", "go-variadic", "go-panics", "go-err",
-	"module", "error", "*struct", "int32", "uint8", "float32", "map[int64]string", "nil-map", "nil-[]int64", "struct-value"}
+	"module", "error", "*struct", "int32", "uint8", "float32", "map[int64]string", "nil-map", "nil-[]int64", "struct-value", "named-int64", "named-string"}
 
 // a small subset used for the positions that are not being varied
 var uBenign = []int{uInt64, uSlice2, uStringABC}
@@ -238,6 +240,10 @@ func zzValueOf(c int) reflect.Value {
 		return reflect.ValueOf(make([][]int64, 1)).Index(0)
 	case uStructVal:
 		return reflect.New(reflect.TypeOf(zzPair{})).Elem()
+	case uNamedInt64:
+		return reflect.ValueOf(zzDur(zzI64()))
+	case uNamedString:
+		return reflect.ValueOf(zzLabel("lbl"))
 	}
 	return nilValue
 }
@@ -269,3 +275,10 @@ func zzOperand(c, p int) reflect.Value {
 func zzWF(rv reflect.Value) bool {
 	return rv.IsValid() && rv.CanInterface()
 }
+
+// zzDur, zzLabel: defined scalar types, as the bundled packages hand them to scripts (time.Duration, time.Month ...)
+type zzDur int64
+
+func (d zzDur) Twice() int64 { return int64(d) * 2 }
+
+type zzLabel string
